@@ -728,8 +728,11 @@ impl Report {
         }
         let distinct_fresh_keys: BTreeSet<&str> = fresh.iter().map(|v| v.key.as_str()).collect();
         if std::env::var("VERIF_LIST_ALL").is_ok() {
-            for k in &distinct_fresh_keys {
-                println!("FRESH-KEY {k}");
+            let mut seen_keys: BTreeSet<&str> = BTreeSet::new();
+            for v in &fresh {
+                if seen_keys.insert(v.key.as_str()) {
+                    println!("FRESH-KEY {} :: {}", v.key, v.what);
+                }
             }
         }
 
